@@ -10,6 +10,9 @@ import itertools
 R = "#/components/schemas/"
 EDGE_KINDS = ("prop", "array", "union", "addl", "allof")
 NODE_NAMES = ("Alpha", "Beta", "Gamma")
+# naming as a dimension: unrelated names; each name a SUFFIX of the next (Pet / NewPet / MyNewPet); each a PREFIX of the next
+NAMINGS = {"plain": ("Alpha", "Beta", "Gamma"), "suffix": ("Pet", "NewPet", "MyNewPet"), "prefix": ("Item", "ItemBase", "ItemBaseX"),
+           "suffix-rev": ("MyNewPet", "NewPet", "Pet")}
 
 
 def ref(n):
@@ -30,9 +33,9 @@ def graphs(n, max_edges, orders=("fwd", "rev")):
                     yield label, edges, order
 
 
-def components(n, edges, order):
+def components(n, edges, order, naming="plain"):
     """components.schemas for the graph: every node has a scalar property first, its edges next, an inline object last."""
-    names = NODE_NAMES[:n]
+    names = NAMINGS[naming][:n]
     out = {}
     for i, name in enumerate(names):
         props = {"v": {"type": "integer"}}
@@ -61,7 +64,7 @@ def components(n, edges, order):
     return out
 
 
-def paths(n):
-    names = NODE_NAMES[:n]
+def paths(n, naming="plain"):
+    names = NAMINGS[naming][:n]
     return {"/g": {"post": {"operationId": "postG", "requestBody": {"required": True, "content": {"application/json": {"schema": ref(names[-1])}}},
                             "responses": {"200": {"description": "d", "content": {"application/json": {"schema": ref(names[0])}}}}}}}
